@@ -127,9 +127,9 @@ def run(ctx):
     ctx.exhaustive = True
     ctx.extra['exhaustive_bound'] = 'domain {0,1,2}: n=1 all sets of <=3 sequences; n=2 all sets of <=%d sequences' % ctx.budget(2, 3)
     # random larger, biased towards reducible families
-    for _ in range(ctx.budget(600, 8000)):
+    for _ in range(ctx.budget(350, 6000)):
         dom = rng.choice([D, D, D, D, [0, 1], [0, 1, 2, 3]])
-        n = rng.randint(1, 6 if len(dom) <= 3 else 4)
+        n = rng.randint(1, (5 if ctx.tier == "quick" else 6) if len(dom) <= 3 else 4)
         seqs = set()
         for _ in range(rng.randint(1, 8)):
             r = rng.random()
